@@ -806,8 +806,12 @@ fn from_to_float<T: Fl, M3: MatX<T>, M4: MatX<T>>(
     } else if kind == 2 {
         // close to (anti)parallel
         let e = rand_dir(&mut rng);
-        let eps = 10f64.powf(rng.f64_in(-4.0, -1.0));
         let sgn = if rng.bool() { 1.0 } else { -1.0 };
+        // nearly parallel pairs down to angles far below sqrt(eps) of either type (well conditioned: the
+        // rotation is tiny, not undefined; a "the vectors are parallel" shortcut taken by tolerance, or
+        // by an equality that only holds after rounding, returns the identity here: seeded change C05_P);
+        // nearly opposite pairs as before (below 1e-3 rad they are ill conditioned and not judged)
+        let eps = if sgn > 0.0 { 10f64.powf(rng.f64_in(-12.0, -1.0)) } else { 10f64.powf(rng.f64_in(-4.0, -1.0)) };
         let m2 = mag(&mut rng);
         [T::of((sgn * d[0] + eps * e[0]) * m2), T::of((sgn * d[1] + eps * e[1]) * m2), T::of((sgn * d[2] + eps * e[2]) * m2)]
     } else {
